@@ -351,7 +351,8 @@ def cases(tier):
     cs += [H2e("sz"), H2e("id"), H2e(np.diag([0.0, 1.0, 2.0])), H2e(np.diag([0.0, 0.0, 1.0]))]
     if tier == "thorough":
         for method in ("tempo", "pt"):
-            cs += [H1(method, 4, 1, True), H1(method, 4, 3, True), H1(method, 5, 2, True), H1(method, 5, None, False),
+            # (N=5 general path sums give `unknown`: N<=4 is the stated bound; the commuting N=5 case is cheap)
+            cs += [H1(method, 4, 1, True), H1(method, 4, 3, True), H1(method, 4, None, False),
                    H1(method, 4, 1, False), H1(method, 2, 1, True, d=3), H1(method, 2, None, False, d=3),
                    H1(method, 5, 2, True, commuting=True), H1p(method, 4, 2, True, unique=True), H1p(method, 4, None, False),
                    H1p(method, 3, 1, True, coupling="id", unique=True)]
